@@ -76,7 +76,7 @@ class C03(Check):
 
 class C04(Check):
     pid = "C04"
-    lean_modules = []
+    lean_modules = ["MTProps.C04"]
 
     def body(self):
         rng = self.rng
@@ -314,6 +314,8 @@ class C07(Check):
         lines = []
         for k in range(n):
             rc = random_run(rng, variants=ALL_VARIANTS, r=rng.randint(2, 4), maxit=rng.choice([1, 3, 11]))
+            if k < 6:   # boundary seeds always present: 0, 1, around 2^31 and 2^32
+                rc.seed = [0, 1, 2 ** 31, 2 ** 32 - 1, 2 ** 32, 2 ** 32 + 7][k]
             # make a vertex without out-edges likely: add a fresh sink
             if rng.random() < 0.7:
                 rc.recs = rc.recs + [(rc.recs[0][0], 999, [1] * rc.L)]
@@ -380,7 +382,7 @@ class C07(Check):
 
 class C08(Check):
     pid = "C08"
-    lean_modules = []
+    lean_modules = ["MTProps.C08"]
 
     def enum_lists(self, N, L, maxrec, weights=(0, 1, 2)):
         """all record lists over labels 0..N-1 in canonical first-appearance order"""
@@ -559,7 +561,7 @@ class C10(Check):
 
 class C11(Check):
     pid = "C11"
-    lean_modules = []
+    lean_modules = ["MTProps.C11"]
 
     def body(self):
         rng = self.rng
@@ -643,7 +645,7 @@ class C11(Check):
 
 class C12(Check):
     pid = "C12"
-    lean_modules = []
+    lean_modules = ["MTProps.C12"]
 
     def body(self):
         rng = self.rng
